@@ -156,7 +156,7 @@ theorem static_shift_correct (dir : Dir) (fill : Fill) (a : BV4) (amount : Nat) 
 
 /-- **defect (DESIGN.md §6 F4), for all widths**: amount > width builds a result of `amount` bits — not the operand's
     width, so not the definition (`Spec.shift` keeps the width).  Re-discovered by the check as
-    `op=shl|shr|rotl|rotr class=amount>width`. -/
+    `op=shl|shr|rotl|rotr class=amount-gt-width`. -/
 theorem static_shift_defect (dir : Dir) (fill : Fill) (a : BV4) (amount : Nat) (h : amount > a.length) :
     (staticShift dir fill a amount).length = amount ∧ (Spec.shift dir fill a amount).length = a.length ∧
     staticShift dir fill a amount ≠ Spec.shift dir fill a amount := by
